@@ -303,7 +303,7 @@ pub fn random_stream(rng: &mut Rng, set: &MacroSet, flavor: Flavor, st: &mut Str
     } else {
         v.extend([ch('.'), cs("z"), ch(';'), ch(';'), ch(';')]);
     }
-    drop_unlexable_spaces(&v, false)
+    drop_unlexable_spaces(&v, true)
 }
 
 /// The enumerated stream `\xa^k1 \a \xa^k2 \b \xa^k3 \c \xa^k4 \d` + tail.
